@@ -853,6 +853,10 @@ func (p *Path) CheckAssert(c *Term, kind, msg, where string) {
 		return
 	}
 	v, _ := p.check(tNot(c), true)
+	for retry := 0; v == Unknown && retry < 2; retry++ {
+		// the timeout is wall-clock: under load a query near the limit deserves another go before the run is called inconclusive
+		v, _ = p.check(tNot(c), true)
+	}
 	switch v {
 	case Sat:
 		p.violation(kind, msg, where, p.w.lastVals)
